@@ -75,6 +75,7 @@ fn main() {
         i += 1;
     }
     let mut out = Out::new(&cfg.out);
+    util::start_watchdog(&cfg.out);
     match prop.as_str() {
         "C02" => c02::run(&cfg, &mut out),
         "C06" => c06::run(&cfg, &mut out),
